@@ -1,1 +1,75 @@
-From Coq Require Import ZArith.
+(* C07 part 2 — proofs about the model of the RecInt Montgomery types (Model.v, part 2):
+   arazi_qi, inv_mod, the Montgomery reduction, rmint<K,MGA>, rmint<K,MGI>, Givaro::Montgomery<ruint<K>>,
+   for every K = k + 6 (B = Bk k = 2^(2^K)) and every odd modulus 1 < p < B. *)
+From Coq Require Import ZArith Lia Bool List Setoid Morphisms Znumtheory Zpow_facts.
+From C07 Require Import Param Model Redc.
+Local Open Scope Z_scope.
+
+(* ------------------------------------------------------------------ the radix *)
+Lemma Bk_0 : Bk 0 = W64. Proof. reflexivity. Qed.
+Lemma Bk_S k : Bk (S k) = Bk k * Bk k.
+Proof.
+  unfold Bk. rewrite <- Z.pow_add_r by (apply Z.mul_nonneg_nonneg; [lia | apply Z.pow_nonneg; lia]).
+  f_equal. rewrite Nat2Z.inj_succ. rewrite Z.pow_succ_r by lia. ring.
+Qed.
+Lemma Bk_pos k : 1 < Bk k.
+Proof. induction k as [|k IH]; [reflexivity|]. rewrite Bk_S. nia. Qed.
+Lemma Bk_even k : exists h, Bk k = 2 * h.
+Proof.
+  induction k as [|k [h IH]]; [exists 9223372036854775808; reflexivity|].
+  exists (h * Bk k). rewrite Bk_S. rewrite IH at 1. ring.
+Qed.
+Lemma Bk_log2 k : Z.log2_up (Bk k) = 64 * 2 ^ Z.of_nat k.
+Proof. unfold Bk. apply Z.log2_up_pow2. apply Z.mul_nonneg_nonneg; [lia | apply Z.pow_nonneg; lia]. Qed.
+
+Lemma u64_eqm z : eqm W64 (u64 z) z.
+Proof. unfold u64. apply mod_eqm. Qed.
+
+Lemma odd_succ_double a : Z.odd a = true -> exists y, a = 2 * y + 1.
+Proof. intros H. exists (a / 2). rewrite (Zdiv2_odd_eqn a) at 1. rewrite H. rewrite Z.div2_div. reflexivity. Qed.
+
+(* ------------------------------------------------------------------ arazi_qi, base case (one limb) *)
+Lemma aq_step f i am u : (i <? 64) = true ->
+  aq_loop (S f) i am u = aq_loop f (Z.shiftl i 1) (u64 (u64 (u64 (am * am) + 1) - 1)) (u64 (u * u64 (u64 (am * am) + 1))).
+Proof. intros H. cbn [aq_loop]. rewrite H. reflexivity. Qed.
+Lemma aq_stop f i am u : (i <? 64) = false -> aq_loop (S f) i am u = (am, u).
+Proof. intros H. cbn [aq_loop]. rewrite H. reflexivity. Qed.
+
+Lemma pow64_even y : eqm W64 ((2 * y) ^ 64) 0.
+Proof.
+  rewrite Z.pow_mul_l. change (2 ^ 64) with W64. apply eqm_mul_n_l.
+Qed.
+
+Lemma arazi_qi_64_spec a : 0 <= a < W64 -> Z.odd a = true ->
+  0 <= arazi_qi_64 a < W64 /\ (a * arazi_qi_64 a) mod W64 = 1.
+Proof.
+  intros Ha Ho. unfold arazi_qi_64. destruct (Z.eqb_spec a 1) as [->|N].
+  - split; [unfold W64; lia | reflexivity].
+  - split; [unfold u64; apply Z.mod_pos_bound; reflexivity|].
+    rewrite aq_step by reflexivity. rewrite aq_step by reflexivity. rewrite aq_step by reflexivity.
+    rewrite aq_step by reflexivity. rewrite aq_step by reflexivity. rewrite aq_stop by reflexivity.
+    cbn [snd]. transitivity (1 mod W64); [|reflexivity].
+    match goal with |- ?L mod W64 = 1 mod W64 => change (eqm W64 L 1) end.
+    rewrite !u64_eqm.
+    destruct (odd_succ_double a Ho) as [y ->].
+    replace (2 * y + 1 - 1) with (2 * y) by ring.
+    set (x := 2 * y).
+    assert (Hx : eqm W64 (x ^ 64) 0) by (unfold x; apply pow64_even).
+    clearbody x.
+    remember (x * x) as A1 eqn:E1.
+    replace (A1 + 1 - 1) with A1 by ring. remember (A1 * A1) as A2 eqn:E2.
+    replace (A2 + 1 - 1) with A2 by ring. remember (A2 * A2) as A3 eqn:E3.
+    replace (A3 + 1 - 1) with A3 by ring. remember (A3 * A3) as A4 eqn:E4.
+    replace (A4 + 1 - 1) with A4 by ring. remember (A4 * A4) as A5 eqn:E5.
+    assert (T0 : (x + 1) * (1 - x) = 1 - A1) by (subst A1; ring).
+    assert (T1 : (1 - A1) * (A1 + 1) = 1 - A2) by (subst A2; ring).
+    assert (T2 : (1 - A2) * (A2 + 1) = 1 - A3) by (subst A3; ring).
+    assert (T3 : (1 - A3) * (A3 + 1) = 1 - A4) by (subst A4; ring).
+    assert (T4 : (1 - A4) * (A4 + 1) = 1 - A5) by (subst A5; ring).
+    assert (T5 : (1 - A5) * (A5 + 1) = 1 - x ^ 64).
+    { replace (x ^ 64) with (A5 * A5); [ring|]. subst A5 A4 A3 A2 A1. ring. }
+    replace (2 - (x + 1)) with (1 - x) by ring.
+    match goal with |- eqm _ ?L _ =>
+      replace L with ((x + 1) * (1 - x) * (A1 + 1) * (A2 + 1) * (A3 + 1) * (A4 + 1) * (A5 + 1)) by ring end.
+    rewrite T0, T1, T2, T3, T4, T5. rewrite Hx. reflexivity.
+Qed.
